@@ -171,9 +171,11 @@ def explore(ctx):
     # ---- on a terminal: layout constraints on the final screen
     jobs = []
     for i in range(npty):
-        cols, rows = gen_table_rows(rng, rng.randint(1, 10), rng.randint(0, 40))
-        stages = [('json', None), ('sort', [col('id')], None), ('fields', 'only', cols)]
         h = rng.choice([3, 4, 6, 10, 24, 50])
+        # one table in three has as many rows as just fit, one fewer or one more (header + rule + rows against height - 1)
+        nrows = rng.randint(0, 40) if i % 3 else max(0, h - 3 + (i // 3) % 4 - 1)
+        cols, rows = gen_table_rows(rng, rng.randint(1, 10), nrows)
+        stages = [('json', None), ('sort', [col('id')], None), ('fields', 'only', cols)]
         w = rng.choice([4, 8, 12, 20, 40, 80, 120, 240])
         c = Case('t%d' % i, STAR, stages, [gen.jtext(r) for r in rows], {'tty'}, note={'cols': cols, 'rows': rows})
         jobs.append((c, h, w))
